@@ -45,6 +45,7 @@ type Engine struct {
 	dynKeys        map[*ssa.Function]map[string]bool
 	escaping       []*ssa.Function
 	FieldDecls     []*FieldDecl
+	MapDecls       []*FieldDecl
 	callees        map[*ssa.Function]map[*ssa.Function]bool
 	reachCache     map[*ssa.Function]map[string]bool
 	cellable       map[*ssa.Alloc]bool
@@ -613,11 +614,14 @@ func (x *Exec) obligeKnown(env *specEnv, name, kind, pos, clause string, reach, 
 // WriteSetUnits reports the write-set declarations serving a property as units.
 func (e *Engine) WriteSetUnits(prop string) []*UnitResult {
 	var out []*UnitResult
-	for _, fd := range e.FieldDecls {
+	for _, fd := range append(append([]*FieldDecl{}, e.FieldDecls...), e.MapDecls...) {
 		if !hasProp(fd.Props, prop) {
 			continue
 		}
 		name := fmt.Sprintf("writeset(%s.%s)", fd.Struct, fd.Field)
+		if fd.MapContent {
+			name = fmt.Sprintf("writeset(%s.%s[])", fd.Struct, fd.Field)
+		}
 		o := &Obligation{Unit: name, Name: name, Kind: "writeset", Pos: fmt.Sprintf("%s:%d", filepath.Base(fd.Decl.File), fd.Decl.Line),
 			Clause: "every store into the field (or escape of its address) occurs in a listed writer: " + fd.Decl.Text, Solver: "ssa-scan", Status: "unsat"}
 		if len(fd.Violated) > 0 {
